@@ -318,6 +318,7 @@ static HOOKS: simhook::Hooks = simhook::Hooks {
     unpark: hook_unpark,
     spawn: hook_spawn,
     now: hook_now,
+    choose: |_site, n| simcore::try_with(|d| d.choose("hook.order", n)).unwrap_or(0),
     op_supported: |_| None,
 };
 
